@@ -175,14 +175,16 @@ def _families(names, seed, tier):
             specs += CP.family_reject()
         elif n == 'packages':
             specs += CP.family_packages()
+        elif n == 'frontend':
+            specs += CP.family_frontend()
     return specs
 
 
-def sideb(names, label=None):
+def sideb(names, label=None, determinism=False):
     def fn(pid, tier, seed, sp):
         import sideb as SB
         specs = _families(names, seed, tier)
-        return SB.run_sideb(pid, specs, props_filter=pid, label=sp['label'])
+        return SB.run_sideb(pid, specs, props_filter=pid, label=sp['label'], determinism=determinism)
     return dict(kind='custom', fn=fn, label=label or 'sideB[%s]' % '+'.join(names), entry='sideB', params={})
 
 
@@ -375,3 +377,15 @@ PROPS['C11']['thorough'] = PROPS['C11']['thorough'] + [tspec('H_recog_bind')]
 PROPS['C02']['quick'] = PROPS['C02']['quick'][:-1] + [sideb(['chains3', 'kinds', 'packages'])]
 PROPS['C02']['thorough'] = PROPS['C02']['thorough'][:-1] + [sideb(['chains4', 'deep', 'kinds', 'grouping', 'packages'])]
 PROPS['C10']['quick'] = PROPS['C10']['quick'][:-1] + [sideb(['grouping', 'kinds', 'packages'])]
+
+for _p, _fam in (('C01', ['frontend', 'packages']), ('C10', ['frontend']), ('C14', ['frontend']), ('C02', ['frontend'])):
+    for _t in ('quick', 'thorough'):
+        PROPS[_p][_t] = PROPS[_p][_t] + [sideb(_fam)]
+PROPS['C15']['quick'] = PROPS['C15']['quick'] + [sideb(['frontend'])]
+PROPS['C15']['thorough'] = PROPS['C15']['thorough'] + [sideb(['frontend', 'kinds'])]
+PROPS['C15']['bounds_text'] += '; side B zoo: declarations next to an injector (generic types and functions incl. two type parameters, labels/goto, closures, defer, select, type switch, shadowing of err/cleanup, locals colliding with generated import names, methods, struct tags, variables, constants, aliased imports) are copied by the real wire binary, must compile, and each copied function equals its twin original for all values of its symbolic integer arguments'
+PROPS['C15']['outside'] = 'declaration forms beyond the zoo; comments/positions after gofmt; ast.File / ast.Package never reach copyAST; Ident.Obj (resolver link) is not syntax'
+PROPS['C16']['quick'] = PROPS['C16']['quick'] + [sideb(['kinds', 'naming', 'values', 'frontend', 'packages'], determinism=True)]
+PROPS['C16']['thorough'] = PROPS['C16']['thorough'] + [sideb(['chains3', 'kinds', 'naming', 'values', 'frontend', 'packages', 'grouping'], determinism=True)]
+PROPS['C16']['bounds_text'] += '; supplement (enumerated runs, not solver-decided): for the side-B corpus, a repeated run, and a run in a copy of the module at another location started from a package directory with per-package relative patterns, must give byte-identical files free of absolute paths'
+PROPS['C16']['outside'] = 'NOT CLAIMED: GOPATH mode and vendor-directory resolution (only module mode exists in this sandbox offline), co-processing with arbitrary other packages beyond the corpus runs'
